@@ -428,6 +428,28 @@ def test_selector_all_of_them(sigma_simple_detections):
     )
 
 
+def test_selector_identifier_with_line_break():
+    detections = SigmaDetections.from_dict(
+        {
+            "sel\n1": {"field": "val1"},
+            "sel2": {"field": "val2"},
+            "condition": ["1 of them", "all of sel*"],
+        }
+    )
+    assert detections.parsed_condition[0].parsed == ConditionOR(
+        [
+            ConditionFieldEqualsValueExpression("field", SigmaString("val1")),
+            ConditionFieldEqualsValueExpression("field", SigmaString("val2")),
+        ]
+    )
+    assert detections.parsed_condition[1].parsed == ConditionAND(
+        [
+            ConditionFieldEqualsValueExpression("field", SigmaString("val1")),
+            ConditionFieldEqualsValueExpression("field", SigmaString("val2")),
+        ]
+    )
+
+
 def test_selector_underscore_filter(sigma_underscore_detections):
     assert SigmaCondition("any of them", sigma_underscore_detections).parsed == ConditionOR(
         [
